@@ -30,7 +30,7 @@ from harness.common import Ctx, InfraError, Toks, call, toks
 LEVEL = "proof"
 RULE = ("cases = (AST of the documented syntax, concrete rendering with redundant parentheses/blanks — also blanks "
         "inside quantifier braces and leading zeros in bounds —, alphabet); "
-        "round 3, run first: 700 (thorough 12000) PROGRAMS of 1–5 calls over an alphabet no earlier call of the process has "
+        "round 3, run first: 700 (thorough 6000) PROGRAMS of 1–5 calls over an alphabet no earlier call of the process has "
         "touched (validate / a tiny compile / a call that must raise first, then from_regex with the explicit or the default "
         "alphabet, sometimes again / over Σ∪{x} / a second expression; `()` in 70 % of the expressions), every compiled NFA judged "
         "by both oracles and compared with the model; then "
@@ -330,7 +330,7 @@ def fresh_alphabet_sequences(ctx: Ctx):
     rng = ctx.rng
     used: set = set()
     failing: list = []
-    for _ in range(ctx.budget(700, 12000)):
+    for _ in range(ctx.budget(700, 6000)):
         prog = S.gen_program(rng, used, "compile", _rewrite)
         if prog is None:
             ctx.stat("seq_no_fresh_alphabet")
